@@ -53,7 +53,17 @@ CommandExecutor::CommandExecutor()
 signed long CommandExecutor::absoluteToInternalTime(unsigned long ms)
 {
     signed long msSigned = ms;
-    return round((msSigned - m_lastClockResetTime) / m_clockSkewCompensationFactor);
+    double result = round((msSigned - m_lastClockResetTime) / m_clockSkewCompensationFactor);
+
+    /* saturate: converting an out-of-range floating-point value to an integer
+     * is undefined */
+    if (result >= (double)LONG_MAX) {
+        return LONG_MAX;
+    } else if (result <= (double)LONG_MIN) {
+        return LONG_MIN;
+    }
+
+    return result;
 }
 
 void CommandExecutor::checkAndFireTriggers(unsigned long now)
@@ -262,7 +272,17 @@ EasingMode CommandExecutor::handleEasingModeByte()
 
 unsigned long CommandExecutor::internalToAbsoluteTime(long ms)
 {
-    return round(m_lastClockResetTime + ms * m_clockSkewCompensationFactor);
+    double result = round(m_lastClockResetTime + ms * m_clockSkewCompensationFactor);
+
+    /* saturate: converting a negative or too large floating-point value to an
+     * unsigned integer is undefined */
+    if (result <= 0) {
+        return 0;
+    } else if (result >= (double)ULONG_MAX) {
+        return ULONG_MAX;
+    }
+
+    return result;
 }
 
 uint8_t CommandExecutor::nextByte()
